@@ -23,3 +23,5 @@ import Reamber.Props.C15
 #print axioms Reamber.PermInv.convert_one_rowperm
 #print axioms Reamber.PermInv.hitsound_copy_perm
 #print axioms Reamber.PermInv.write_osu_perm
+#print axioms Reamber.PermInv.beats_any_order
+#print axioms Reamber.PermInv.write_sm_perm_partial
